@@ -17,6 +17,7 @@
  * Every operation leaves the block's view and WF untouched; no octet of any area is written (explicit frame).
  */
 #define BLOCK_BYTES
+#define FIXED_AREAS          /* segment k reads area k (sharing areas matters to the structure operations of the block unit, not to reading) */
 #define AREASZ 4
 #define MAXSZ 4
 #include "../block/contract.c"
@@ -171,7 +172,7 @@ void h_stream_get(void)
 void h_stream_bits(void)
 {
     BUILD_BLOCK(); VIN(uint8_t, start); VIN(uint8_t, skip); VIN(uint8_t, nb);
-    VASSUME(nb >= 1 && nb <= 24 && skip <= 24);
+    VASSUME(nb >= 1 && nb <= 24 && skip <= 7);          /* bit phase inside an octet (whole octets are covered by `start`) */
     struct ubuf_block_stream s;
     int ret = ubuf_block_stream_init(&s, ubuf, start);
     if (ret == UBASE_ERR_NONE) {
@@ -187,7 +188,7 @@ void h_stream_bits(void)
             expect = (expect << 1) | ((v >> (7 - bit % 8)) & 1);
         }
         VPOST(got == expect);
-        VPOST(!past || s.overflow);                      /* reading past the end is flagged */
+        VPOST(past == s.overflow);                       /* running out of data is flagged, and only then */
         VPOST(spec_wf(ubuf) && spec_unchanged(ubuf, &g_o) && spec_areas_kept());
     }
     VCANARY();
